@@ -639,6 +639,16 @@ def check_tolerances(prog, report):
     pi square) and the tolerance stays far below the smallest admitted
     segment length 2^-10."""
     n = 0
+    mod = prog.module(IM)
+    imp = mod.imports.get('isclose')
+    src_mod = imp[0] if imp else None
+    report.check(
+        src_mod == 'math', 'R-tolerance', 'isclose is math.isclose', IM,
+        'the point comparisons use math.isclose (relative tolerance 1e-9, '
+        'no absolute tolerance); numpy.isclose defaults to rtol=1e-5, '
+        'atol=1e-8, which merges distinct vertices from level 17 on; '
+        'imported from: %s' % (imp, ),
+        construct='initial_mesh: isclose import')
     for q in ('InitialMesh.refine_msh_bdr', 'InitialMesh.vertex_from_coords'):
         fi = prog.func(IM, q)
         for node in ast.walk(fi.node):
